@@ -162,14 +162,21 @@ func runDKGCallers(t *testing.T, rc *RunCtx) {
 	s := NewSched(rc, SchedCfg{MaxSteps: 20000})
 	defer s.Close()
 	timeout := 70 * time.Second
-	c := NewCluster(t, rc, s, ClusterCfg{IDs: []uint64{1, 2, 3, 4}, Timeout: timeout, Perms: FullPermissions("client1", "SIGNER-02", "signer-02x")})
+	// In half of the runs the peer table also lists a peer with identifier 0 (accepted by the peers service; only an
+	// instance's own identifier must be non-zero): "no identifier found" and "identifier 0" must not be confused.
+	var extra map[uint64]string
+	if rc.Ch.Pick(2, 0) == 1 {
+		extra = map[uint64]string{0: "signer-zero:9100"}
+		rc.Stats.Inc("probe_peer_table_lists_identifier_zero", 1)
+	}
+	c := NewCluster(t, rc, s, ClusterCfg{IDs: []uint64{1, 2, 3, 4}, Timeout: timeout, ExtraPeers: extra, Perms: FullPermissions("client1", "SIGNER-02", "signer-02x")})
 	defer c.Close()
 	co := &coordinator{c: c}
 	// signer-03 (id 3) is a configured peer that takes no part in the generation; its id lies between those of
 	// the participants (1, 2, 4).
 	parts := []*Node{c.Nodes[0], c.Nodes[1], c.Nodes[3]}
 	outsider := c.Nodes[2]
-	target := parts[1]   // signer-02, id 2
+	target := parts[1] // signer-02, id 2
 	legit := parts[0].Name
 	acct := "Wallet 3/acct16"
 	const th = 2
